@@ -14,7 +14,8 @@ RULE = ("scenario = run_forever(ping_interval=i, ping_timeout=t, ping_payload=p)
         "stratum, optionally after the first bytes of a frame whose rest never arrives); concurrent server traffic (none / "
         "steady / bursts timed to collide with ping and timeout instants / pong frames nobody asked for at offsets around "
         "and after the timeout); optionally an application thread sitting in send() (server window closed for longer than "
-        "the timeout) when a ping falls due; seeded schedules incl. line-level pre-emption between ping thread and loop.  Oracle from the peer's "
+        "the timeout) when a ping falls due; optionally a step of the wall clock (forwards / backwards by more than the "
+        "timeout) around a ping; seeded schedules incl. line-level pre-emption between ping thread and loop.  Oracle from the peer's "
         "log and the callback trace: pings carry p, consecutive pings are i apart, the first no later than 2 i after the "
         "connection is up, none after the run has ended; silent: on_error(WebSocketTimeoutException 'ping/pong timed "
         "out') no later than P + 2 t (P = arrival of the first unanswered ping); responsive: no timeout ever reported; "
@@ -83,6 +84,8 @@ def expand(item, seed):
                             if stratum == "responsive":
                                 yield dict(sc, second_conn="second_run_timeout_only")
                                 yield dict(sc, sender={"at": 2 * int(i * S) - S // 8, "block": int(t * S) + S // 2, "len": 100})
+                            for sign in (1, -1):
+                                yield dict(sc, clock_jump={"at": 2 * int(i * S) + (sc["pong"]["lat"] // 2 or 1), "delta": sign * (2.0 * t + 0.25)})
                         if traffic == "none" and i in (1, 3, 8):
                             yield dict(sc, second_conn="second_run")
                             if stratum == "responsive":
@@ -155,6 +158,11 @@ def gen(rng):
         # an application thread is inside send() (the server's window closed for a while, the server itself answering every
         # ping at once) when a ping falls due: the ping has to wait for the send lock
         sc["sender"] = {"at": rng.choice((2, 3)) * it - rng.choice((S // 8, S // 2)), "block": tt + rng.choice((S // 4, tt, 2 * tt)), "len": 100}
+    if tt is not None and not sc.get("sender") and rng.random() < 0.15:
+        # the wall clock steps (forwards or backwards, by more than the timeout) somewhere around a ping
+        k_ = rng.choice((2, 3, 4))
+        sc["clock_jump"] = {"at": k_ * it + rng.choice((-S // 8, 1, (pong.get("lat") or 0) // 2, S // 8, it // 2)),
+                            "delta": rng.choice((-1, 1)) * (tt + rng.choice((S // 4, tt, 10 * tt))) / S}
     sc["policy"] = rng.choice(({"kind": "coop", "p_call": 0.0}, {"kind": "coop", "p_call": 0.3},
                                {"kind": "prob", "p_line": 1 / 64, "p_call": 0.3}, {"kind": "prob", "p_line": 1 / 8, "p_call": 0.3},
                                {"kind": "pct", "d": 2, "len": 4000},
@@ -225,6 +233,11 @@ def run(sc, choices=None):
             script.append({"t": tp, "hex": pong["partial"]})
         if not silent:
             script.append({"t": horizon, "hex": R.encode_frame(1, 8, b"\x03\xe8").hex()})
+        cj = sc.get("clock_jump")
+        if cj is not None:
+            if tt is None or not 0 < int(cj["at"]) < horizon or not 0 < abs(float(cj["delta"])) <= 1000:
+                raise InvalidScenario("clock_jump")
+            script.append({"t": int(cj["at"]), "clock_jump": float(cj["delta"])})
         script.sort(key=lambda d: d["t"])
     on_ping = {"mode": "pong", "delay": int(pong.get("lat", 0))}
     if pong.get("lats"):
@@ -294,7 +307,9 @@ def run(sc, choices=None):
     if silent and pong.get("partial"):
         ctx = "silent_midframe"
     if sender is not None:
-        ctx = "responsive/application_thread_in_send"  # (the judged connection may be a re-established one or belong to a second run: see detail)
+        ctx = "responsive/application_thread_in_send"
+    if sc.get("clock_jump") and not refused:
+        res.probes["wall_clock_step"] = 1  # (the context stays the base one: a step must not change any verdict)
     if refused:
         ok = run_.exc is not None and isinstance(run_.exc, w.ws.WebSocketException)
         if not ok:
@@ -419,4 +434,4 @@ def _fin(res, sc, ctx, npings):
 
 
 def sample_view(sc, r):
-    return {k: sc.get(k) for k in ("interval", "timeout", "payload", "pong", "traffic", "pings", "policy", "tls", "second_conn", "dispatcher", "sender")}
+    return {k: sc.get(k) for k in ("interval", "timeout", "payload", "pong", "traffic", "pings", "policy", "tls", "second_conn", "dispatcher", "sender", "clock_jump")}
